@@ -12,23 +12,27 @@
 (* where d is the number of links on the longest sensor-to-output path.  C12 is the invariant FeedForward: after  *)
 (* every one of these calls the outputs of all five instances equal TopoEval.                                     *)
 EXTENDS Solvers, Json, SequencesExt
-CONSTANTS Inputs, Biases, Hidden, OutSet,   \* node ids (sets); ids ascend inputs < biases < hidden/outputs freely
+CONSTANTS Inputs, Biases, Hidden, OutSet, Shapes,   \* node ids (sets); ids ascend inputs < biases < hidden/outputs freely
           Weights, InVals, OrderKinds, ActSchemes, LinkCaps, SealAtCap, Extra, Canonical
 
-Sensors == Inputs \cup Biases
-Neurons == Hidden \cup OutSet
-Asc(S) == SetToSortSeq(S, <)
-Outputs == Asc(OutSet)
-VARIABLES inc, cap, ph, net, fm, inp, want, S, extra, log
-vars == <<inc, cap, ph, net, fm, inp, want, S, extra, log>>
+VARIABLES shape, inc, cap, ph, net, fm, inp, want, S, extra, log
+vars == <<shape, inc, cap, ph, net, fm, inp, want, S, extra, log>>
+\* the nodes of the network under construction are those of `shape`, one of the node sets in Shapes
+Ins == Inputs \cap shape
+Bis == Biases \cap shape
+Hid == Hidden \cap shape
+Sensors == Ins \cup Bis
+Neurons == Hid \cup (OutSet \cap shape)
+Asc(X) == SetToSortSeq(X, <)
+Outputs == Asc(OutSet \cap shape)
 
 \* Network.allNodes orders that occur: the genome keeps sensors first; hidden nodes usually come after the outputs
 OrderOf(kind) ==
-    CASE kind = "IBHO" -> Asc(Inputs) \o Asc(Biases) \o Asc(Hidden) \o Outputs
-      [] kind = "IBOH" -> Asc(Inputs) \o Asc(Biases) \o Outputs \o Asc(Hidden)
-      [] kind = "BIHO" -> Asc(Biases) \o Asc(Inputs) \o Asc(Hidden) \o Outputs
-      [] kind = "BIOH" -> Asc(Biases) \o Asc(Inputs) \o Outputs \o Asc(Hidden)
-      [] kind = "IBOHr" -> Asc(Inputs) \o Asc(Biases) \o Outputs \o Reverse(Asc(Hidden))
+    CASE kind = "IBHO" -> Asc(Ins) \o Asc(Bis) \o Asc(Hid) \o Outputs
+      [] kind = "IBOH" -> Asc(Ins) \o Asc(Bis) \o Outputs \o Asc(Hid)
+      [] kind = "BIHO" -> Asc(Bis) \o Asc(Ins) \o Asc(Hid) \o Outputs
+      [] kind = "BIOH" -> Asc(Bis) \o Asc(Ins) \o Outputs \o Asc(Hid)
+      [] kind = "IBOHr" -> Asc(Ins) \o Asc(Bis) \o Outputs \o Reverse(Asc(Hid))
 KindOf(n) == IF n \in Inputs THEN "I" ELSE IF n \in Biases THEN "B" ELSE IF n \in Hidden THEN "H" ELSE "O"
 \* scheme = sequence of activation names dealt cyclically to the neurons in ascending id order
 ActsOf(scheme) ==
@@ -44,37 +48,47 @@ NetOf(order, acts) ==
 G0 == [sensors |-> Sensors, neurons |-> Neurons, outputs |-> Outputs,
        inc |-> [n \in Neurons |-> [i \in DOMAIN inc[n] |-> inc[n][i].src]]]
 NumLinks == Cardinality(D!EdgeSet(G0))
-InputVectors == [1..Cardinality(Inputs) -> InVals]
+\* input vectors are drawn with the length of the largest shape (a constant set, so that TLC's simulator can pick one
+\* action instance at a time); a smaller shape uses the prefix, the rest being pinned to one value
+FullVectors == [1..Cardinality(Inputs) -> InVals]
+Padded(v) == \A i \in DOMAIN v : i > Cardinality(Ins) => v[i] = (CHOOSE x \in InVals : TRUE)
+Trunc(v) == [i \in 1..Cardinality(Ins) |-> v[i]]
+AllNodes == Inputs \cup Biases \cup Hidden \cup OutSet
 
-Init == /\ inc = [n \in Neurons |-> <<>>] /\ ph = "build" /\ cap \in LinkCaps
+Init == /\ shape \in Shapes /\ inc = [n \in Neurons |-> <<>>] /\ ph = "build" /\ cap \in LinkCaps
         /\ net = <<>> /\ fm = <<>> /\ inp = <<>> /\ want = <<>> /\ S = <<>> /\ extra = 0 /\ log = <<>>
 
-AddLink(u, v, w) ==
-    /\ ph = "build" /\ NumLinks < cap /\ u # v
+Addable(u, v) ==
+    /\ u # v
     /\ \A i \in DOMAIN inc[v] : inc[v][i].src # u                     \* simple graphs
     /\ v \notin D!Ancestors(G0, u)                                     \* stays acyclic
+CanAdd == NumLinks < cap /\ \E u \in Sensors \cup Neurons, v \in Neurons : Addable(u, v)
+AddLink(u, v, w) ==
+    /\ ph = "build" /\ u \in shape /\ v \in shape /\ NumLinks < cap /\ Addable(u, v)
     /\ Canonical => \A e \in D!EdgeSet(G0) : e[2] < v \/ (e[2] = v /\ e[1] < u)
     /\ inc' = [inc EXCEPT ![v] = Append(@, [src |-> u, w |-> w, td |-> FALSE])]
-    /\ UNCHANGED <<cap, ph, net, fm, inp, want, S, extra, log>>
+    /\ UNCHANGED <<shape, cap, ph, net, fm, inp, want, S, extra, log>>
 
 \* the quantifier of C12: every neuron reachable from a sensor
+SealGuard == /\ ph = "build" /\ NumLinks >= 1 /\ (SealAtCap => ~CanAdd)
+             /\ \A n \in Neurons : D!Ancestors(G0, n) \cap Sensors # {}
 Seal(ok) ==
-    /\ ph = "build" /\ NumLinks >= 1 /\ (SealAtCap => NumLinks = cap)
-    /\ \A n \in Neurons : D!Ancestors(G0, n) \cap Sensors # {}
+    /\ SealGuard
     /\ net' = NetOf(OrderOf(ok), ActsOf(<<"linear">>))
     /\ ph' = "sealed"
-    /\ UNCHANGED <<inc, cap, fm, inp, want, S, extra, log>>
+    /\ UNCHANGED <<shape, inc, cap, fm, inp, want, S, extra, log>>
 
-Pick(v, scheme) ==
-    /\ ph = "sealed"
-    /\ LET nt == [net EXCEPT !.act = ActsOf(scheme)]
+Pick(vfull, scheme) ==
+    /\ ph = "sealed" /\ Padded(vfull)
+    /\ LET v  == Trunc(vfull)
+           nt == [net EXCEPT !.act = ActsOf(scheme)]
            m  == FastModel(nt)
            fl == FastLoad(m, FastFresh(m), v)
        IN  /\ net' = nt /\ fm' = m /\ inp' = v
            /\ want' = TopoEval(nt, v)
            /\ S' = [std |-> StdLoad(nt, StdFresh(nt), v), fwd |-> fl, rec |-> fl, rlx |-> fl, rlxd |-> fl]
     /\ ph' = "loaded"
-    /\ UNCHANGED <<inc, cap, extra, log>>
+    /\ UNCHANGED <<shape, inc, cap, extra, log>>
 
 Entry(proc, call, arg, outs, err) == [proc |-> proc, call |-> call, arg |-> arg, outs |-> outs, err |-> err]
 Dp == LongestPath(net)
@@ -93,7 +107,7 @@ Run ==
                        Entry("rlx", "relax", d + 1, FastOutputs(fm, x), FALSE),
                        Entry("rlxd", "relax", d, FastOutputs(fm, y), FALSE)>>
     /\ ph' = "ran"
-    /\ UNCHANGED <<inc, cap, net, fm, inp, want, extra>>
+    /\ UNCHANGED <<shape, inc, cap, net, fm, inp, want, extra>>
 \* propagating further ("at least as many steps")
 More ==
     /\ ph = "ran" /\ extra < Extra
@@ -109,17 +123,18 @@ More ==
                               Entry("rlx", "relax", 1, FastOutputs(fm, x), FALSE),
                               Entry("rlxd", "relax", 1, FastOutputs(fm, y), FALSE)>>
     /\ extra' = extra + 1
-    /\ UNCHANGED <<inc, cap, ph, net, fm, inp, want>>
+    /\ UNCHANGED <<shape, inc, cap, ph, net, fm, inp, want>>
 
 \* B2: the case handed to the replayer
 CaseOf == [kind |-> "solvers", net |-> NetJson(net), inp |-> inp, depth |-> Dp, topo |-> TopoOrder(net),
            want |-> want, log |-> log]
 Emit == /\ ph = "ran" /\ extra = Extra /\ PrintT(ToJson(CaseOf))
-        /\ ph' = "done" /\ UNCHANGED <<inc, cap, net, fm, inp, want, S, extra, log>>
+        /\ ph' = "done" /\ UNCHANGED <<shape, inc, cap, net, fm, inp, want, S, extra, log>>
 
-Next == \/ \E u \in Sensors \cup Neurons, v \in Neurons, w \in Weights : AddLink(u, v, w)
+\* (the bound sets are constant so that the simulator draws one action instance at a time)
+Next == \/ \E u \in AllNodes, v \in Hidden \cup OutSet, w \in Weights : AddLink(u, v, w)
         \/ \E ok \in OrderKinds : Seal(ok)
-        \/ \E v \in InputVectors, sc \in ActSchemes : Pick(v, sc)
+        \/ \E v \in FullVectors, sc \in ActSchemes : Pick(v, sc)
         \/ Run \/ More \/ Emit
 Spec == Init /\ [][Next]_vars
 
@@ -128,7 +143,7 @@ FeedForward == \A i \in DOMAIN log : log[i].outs = want /\ ~log[i].err
 \* the scope really is the quantifier's: acyclic, simple, every neuron sensor-reachable, depth >= 1
 InScope == ph = "sealed" => Acyclic(net) /\ SimpleGraph(net) /\ AllSensorReachable(net) /\ LongestPath(net) >= 1
 \* the standard solver's own depth query agrees with the definition whenever there is a hidden node (C14)
-DepthAgrees == (ph = "sealed" /\ Hidden # {}) => StdDepth(net) = LongestPath(net)
+DepthAgrees == (ph = "sealed" /\ Hid # {}) => StdDepth(net) = LongestPath(net)
 
 \* value palettes referred to by the configurations (a .cfg file cannot hold negative numbers or sequences)
 W3 == {0 - 1, 1, 2}
